@@ -29,3 +29,10 @@ spec fn closes(k: int) -> Seq<OutOp>
 {
     if k <= 0 { Seq::empty() } else { closes(k - 1).push(OutOp::Raw(seq!['}'])) }
 }
+// ---- the tail of the @import rewrite (C18) ----
+/// the closers of the wrapper blocks, innermost (last pushed) first
+spec fn rev_closes(stack: Seq<StepToken<'static>>, k: int) -> Seq<OutOp>
+    decreases k,
+{
+    if k <= 0 || k > stack.len() { Seq::empty() } else { rev_closes(stack, k - 1).push(emit_of(stack[stack.len() - k], None, false)) }
+}
